@@ -8,6 +8,7 @@ package main
 
 import (
 	"fmt"
+	"hash/crc32"
 	"math/rand"
 	"strings"
 	"time"
@@ -95,6 +96,12 @@ func main() {
 		if sc.Chunk = fullsync.ChunkOf(key); sc.Chunk > 0 {
 			opt.MinValueBytes = sc.Chunk/2 + r.Intn(sc.Chunk*2)
 			opt.NumKeys = 1 + r.Intn(2)
+			if crc32.ChecksumIEEE([]byte(key))%2 == 0 {
+				// several split values spread over the replay workers: what one worker remembers
+				// about its split key between two chunks meets the other workers' keys
+				opt.NumKeys = 4 + int(crc32.ChecksumIEEE([]byte(key))/2%5)
+				sc.Parallel = 4
+			}
 		}
 		sc.DS = rdbx.GenDataset(r, opt)
 		sc.FO = rdbx.GenFileOptions(r, ver, false)
